@@ -32,298 +32,114 @@ The full edge symmetry ("a necessary valid node is recorded by each of its child
   `becameUnnecessary` (e.g. `outOfFuel`, or a failing heap operation) leaves a node unnecessary while its
   children still record it (`e2`) and while it is still queued (`e3`).  All preservation statements are for
   the normal outcome only (hence the suffix `_ok`).
-* Release builds (`cfg.debug = false`): the proofs use the debug assertions of `rchInsert`
-  (`needs_to_be_computed`) and of `add_parent`/`state_add_parent` (`parent is necessary`); without them `e2`/`e3`
-  are not inductive for the model (a `.abs` operand can make the lhs-change node of a bind necessary while its
-  bind-main node is not).
+* Release builds (`cfg.debug = false`): not attempted.  The proofs use the debug assertions of `rchInsert`
+  (`needs_to_be_computed`: the inserted node is necessary and valid) and of `add_parent`/`state_add_parent`
+  (`the parent is necessary`); the model lets a `.abs` operand make the lhs-change node of a bind necessary
+  without its bind-main node, so in release mode `e2` is not expected to be inductive for the MODEL (the Rust
+  API never exposes lhs-change nodes).
 * `setMaxHeightAllowed` (does not touch what the invariant reads; not stated), edge symmetry (E5), heights.
 -/
 namespace IncrVerif.Props.C05
 open IncrVerif.Engine IncrVerif.Proofs IncrVerif.Proofs.Nec Std.Do
 
-set_option mvcgen.warning false
+/-! ## 1–2: the invariant holds initially and is kept by every API entry point (normal outcome) -/
 
-theorem popped_mem (s0 : State) :
-    ⦃fun s => ⌜s = s0⌝⦄ rchRemoveMin
-    ⦃post⟨fun r _ => ⌜∀ n, r = some n → ∃ (k : Nat) (hk : k < s0.rch.queues.size), n ∈ s0.rch.queues[k]⌝,
-      fun _ _ => ⌜True⌝⟩⦄ := by
-  nv_mvcgen [-rchRemoveMin_v, rchRemoveMin, -dassert_v, dassert, -modNode_v, modNode]
-  all_goals first
-    | (intro n hn; cases hn; done)
-    | skip
-  rename_i s h _ _ lb n rest hq _ _
-  intro m hm
-  cases hm
-  subst h
-  have hlt : lb < s.rch.queues.size := (Array.getElem?_eq_some_iff.1 hq).1
-  have hqe : s.rch.queues[lb] = n :: rest := (Array.getElem?_eq_some_iff.1 hq).2
-  exact ⟨lb, hlt, by rw [hqe]; simp⟩
-
-
-/-- plain form: the popped node sat in a bucket of the heap -/
-theorem popped_in_heap (s s' : State) (n : Nat) (hr : rchRemoveMin.run.run s = (.ok (some n), s')) :
-    ∃ (k : Nat) (hk : k < s.rch.queues.size), n ∈ s.rch.queues[k] := by
-  have := (triple_iff rchRemoveMin _ _ _).1 (popped_mem s) s rfl
-  rw [hr] at this
-  exact this n rfl
-
-/-- **C05 (a)**: in a state that satisfies the necessity invariant and whose recompute heap is well-formed, the
-node `remove_min` hands to `recompute` is necessary and valid. -/
-theorem popped_is_necessary (s s' : State) (n : Nat) (hN : NecWF s) (hH : HeapWF s)
-    (hr : rchRemoveMin.run.run s = (.ok (some n), s')) :
-    s.isNecessary n = true ∧ (s.nodeD n).valid = true := by
-  obtain ⟨k, hk, hn⟩ := popped_in_heap s s' n hr
-  exact hN.queued hH k hk n hn
-
-/-- … and it still is after the pop (the pop only clears its queue marker) -/
-theorem popped_is_necessary' (s s' : State) (n : Nat) (hN : NecWF s) (hH : HeapWF s)
-    (hr : rchRemoveMin.run.run s = (.ok (some n), s')) :
-    s'.isNecessary n = true ∧ (s'.nodeD n).valid = true := by
-  obtain ⟨h1, h2⟩ := popped_is_necessary s s' n hN hH hr
-  have hv := run_of_triple (R := fun r v v' => match r with
-      | none => v' = v
-      | some n => v' = v.setInRch n false) (fun v => rchRemoveMin_v v) s s' (some n) hr
-  simp only at hv
-  have e : (viewOf s').rn n = { (viewOf s).rn n with inRch := false } := by
-    rw [hv]; simp [View.setInRch, View.setRn]
-  constructor
-  · rw [← viewOf_nec, e]; rw [← viewOf_nec] at h1; exact h1
-  · rw [← viewOf_valid, e]; exact h2
-
-/-- **C05 (b)**: if `recomputeOne` is run from a state satisfying the invariant and hands back a parent `p` for
-direct recomputation, the invariant holds afterwards and `p` is necessary and valid. -/
-theorem chain_is_necessary (env : Env) (fuel n p : Nat) (s s' : State) (hN : NecWF s)
-    (hd : s.cfg.debug = true) (hr : (recomputeOne env fuel n).run.run s = (.ok (some p), s')) :
-    NecWF s' ∧ s'.cfg.debug = true ∧ s'.isNecessary p = true ∧ (s'.nodeD p).valid = true := by
-  have h := run_of_triple (R := fun r v v' => RPost r v v') (fun v => recomputeOne_v v env fuel n) s s' _ hr
-    (necV_of_necWF hN hd)
-  obtain ⟨h1, h2⟩ := h
-  obtain ⟨g1, g2⟩ := necWF_of_necV h1
-  obtain ⟨g3, g4⟩ := h2 p rfl
-  exact ⟨g1, g2, by rw [← viewOf_nec]; exact g3, g4⟩
-
-
-/-! ## (c) every node `stabilise` recomputes is necessary: ghost-instrumented copies -/
-
-/-- ghost check: the node about to be recomputed is necessary and valid -/
-def assertNec (n : Nat) : M Unit := do
-  let s ← get
-  assertM (s.isNecessary n && (s.nodeD n).valid) "C05:recompute-of-unnecessary-node"
-
-/-- `recompute` with the ghost check in front of every `recomputeOne` -/
-def recomputeChecked (env : Env) : Nat → Nat → M Unit
-  | 0, _ => throw .outOfFuel
-  | fuel+1, n => do
-    assertNec n
-    match ← recomputeOne env fuel n with
-    | none => pure ()
-    | some p => recomputeChecked env fuel p
-
-/-- `drainHeap` on top of `recomputeChecked` -/
-def drainHeapChecked (env : Env) : Nat → M Unit
-  | 0 => throw .outOfFuel
-  | fuel+1 => do
-    match ← rchRemoveMin with
-    | none => pure ()
-    | some n =>
-      recomputeChecked env fuel n
-      drainHeapChecked env fuel
-
-/-- `stabilise` on top of `drainHeapChecked` -/
-def stabiliseChecked (env : Env) (fuel : Nat) : M Unit := do
-  assertM ((← get).status == .notStabilising) "state:stabilise:status"
-  modify fun s => { s with status := .stabilising }
-  addNewObservers env fuel
-  unlinkDisallowedObservers fuel
-  drainHeapChecked env fuel
-  stabiliseEnd env fuel
-
-theorem run_assertNec (n : Nat) (s : State) (h1 : s.isNecessary n = true) (h2 : (s.nodeD n).valid = true) :
-    (assertNec n).run.run s = (.ok (), s) := by
-  simp [assertNec, run_bind, run_get, run_assertM, h1, h2]
-
-theorem recomputeChecked_eq (env : Env) (fuel : Nat) : ∀ (n : Nat) (s : State), NecWF s → s.cfg.debug = true →
-    s.isNecessary n = true → (s.nodeD n).valid = true →
-    (recomputeChecked env fuel n).run.run s = (recompute env fuel n).run.run s := by
-  induction fuel with
-  | zero => intros; rfl
-  | succ fuel ih =>
-    intro n s hN hd h1 h2
-    simp only [recomputeChecked, recompute, run_bind, run_assertNec n s h1 h2]
-    rcases hr : (recomputeOne env fuel n).run.run s with ⟨r, s'⟩
-    cases r with
-    | error e => rfl
-    | ok o =>
-      cases o with
-      | none => rfl
-      | some p =>
-        obtain ⟨g1, g2, g3, g4⟩ := chain_is_necessary env fuel n p s s' hN hd hr
-        exact ih p s' g1 g2 g3 g4
-
-
-/-- what the drain loop needs of a state: the invariant, a well-formed heap, debug assertions on -/
-def Good (s : State) : Prop := NecWF s ∧ HeapWF s ∧ s.cfg.debug = true
-
-theorem Good.step {α} {x : M α} (hn : ∀ v, NP v x) (hh : Pres .debug x) {s s' : State} {a : α}
-    (hg : Good s) (hr : x.run.run s = (.ok a, s')) : Good s' := by
-  obtain ⟨h1, h2, h3⟩ := hg
-  obtain ⟨g1, g2⟩ := NP.run hn s s' a h1 h3 hr
-  have := hh.run s ((HWF_debug_iff s).2 ⟨h2, h3⟩)
-  rw [hr] at this
-  exact ⟨g1, ((HWF_debug_iff s').1 this).1, g2⟩
-
-theorem rchRemoveMin_np (v : View) : NP v rchRemoveMin := by
-  nv_mvcgen [rchRemoveMin_v]
-  intro h
-  split at h
-  · rw [h, ‹viewOf _ = v›]; exact fun h => h
-  · rw [h, ‹viewOf _ = v›]; exact fun hN => necV_clear _ hN
-
-theorem drainHeapChecked_eq (env : Env) (fuel : Nat) : ∀ (s : State), Good s →
-    (drainHeapChecked env fuel).run.run s = (drainHeap env fuel).run.run s := by
-  induction fuel with
-  | zero => intros; rfl
-  | succ fuel ih =>
-    intro s hg
-    simp only [drainHeapChecked, drainHeap, run_bind]
-    rcases hr : rchRemoveMin.run.run s with ⟨r, s1⟩
-    cases r with
-    | error e => rfl
-    | ok o =>
-      cases o with
-      | none => rfl
-      | some n =>
-        have hg1 : Good s1 := hg.step rchRemoveMin_np (rchRemoveMin_spec .debug) hr
-        obtain ⟨p1, p2⟩ := popped_is_necessary' s s1 n hg.1 hg.2.1 hr
-        have e := recomputeChecked_eq env fuel n s1 hg1.1 hg1.2.2 p1 p2
-        simp only [run_bind, e]
-        rcases hr2 : (recompute env fuel n).run.run s1 with ⟨r2, s2⟩
-        cases r2 with
-        | error e => rfl
-        | ok u =>
-          exact ih s2 (hg1.step (fun v => recompute_v v env fuel n) (recompute_spec env fuel n) hr2)
-
-/-- **C05 (c)**: from a state satisfying the invariant (with a well-formed heap, debug assertions on),
-`stabilise` behaves exactly like its ghost-instrumented copy, which checks in front of *every* call of
-`recomputeOne` that the node is necessary and valid and would panic with the site
-`"C05:recompute-of-unnecessary-node"` otherwise: the check never fires — only nodes needed by a live
-observer are ever computed. -/
-theorem stabiliseChecked_eq (env : Env) (fuel : Nat) (s : State) (hN : NecWF s) (hH : HeapWF s)
-    (hd : s.cfg.debug = true) :
-    (stabiliseChecked env fuel).run.run s = (stabilise env fuel).run.run s := by
-  by_cases hst : (s.status == Status.notStabilising) = true
-  · simp only [stabiliseChecked, stabilise, run_bind, run_get, run_assertM, run_modify, hst, if_true]
-    have hg0 : Good { s with status := .stabilising } :=
-      ⟨⟨hN.e1, hN.e2, hN.e3, hN.e4, hN.kinds⟩, ⟨hH.mem, hH.nodup, hH.length, hH.range⟩, hd⟩
-    rcases hr1 : (addNewObservers env fuel).run.run { s with status := .stabilising } with ⟨r1, s1⟩
-    cases r1 with
-    | error e => rfl
-    | ok u1 =>
-      have hg1 : Good s1 := hg0.step (fun v => addNewObservers_v v env fuel) (addNewObservers_spec env fuel) hr1
-      simp only []
-      rcases hr2 : (unlinkDisallowedObservers fuel).run.run s1 with ⟨r2, s2⟩
-      cases r2 with
-      | error e => rfl
-      | ok u2 =>
-        have hg2 : Good s2 :=
-          hg1.step (fun v => unlinkDisallowedObservers_v v fuel) (unlinkDisallowedObservers_spec .debug fuel) hr2
-        simp only [drainHeapChecked_eq env fuel s2 hg2]
-  · simp only [stabiliseChecked, stabilise, run_bind, run_get, run_assertM, hst]
-    rfl
-
-
-/-! ## (d) no necessary node, no work -/
-
-theorem heap_empty_of_none_necessary (s : State) (hN : NecWF s) (hH : HeapWF s)
-    (hnone : ∀ n, s.isNecessary n = false) : s.rch.length = 0 := by
-  rw [hH.length]
-  unfold bucketSum
-  apply sum_length_of_all_empty
-  intro x hx
-  rw [Array.mem_toList_iff] at hx
-  obtain ⟨k, hk, rfl⟩ := Array.mem_iff_getElem.1 hx
-  cases hq : s.rch.queues[k] with
-  | nil => rfl
-  | cons n rest =>
-    have := (hN.queued hH k hk n (by rw [hq]; simp)).1
-    rw [hnone n] at this; cases this
-
-theorem run_rchRemoveMin_empty (s : State) (h : s.rch.length = 0) :
-    rchRemoveMin.run.run s = (.ok none, s) := by
-  simp [rchRemoveMin, run_bind, run_get, h]
-  rfl
-
-/-- **C05 (d)**: if no node is necessary (in particular: no observer is in use and none is new) then, in a
-state satisfying the invariant with a well-formed heap, the recompute heap is empty and `drainHeap` returns at
-once without touching the state — nothing is computed. -/
-theorem no_observers_no_work (env : Env) (fuel : Nat) (s : State) (hN : NecWF s) (hH : HeapWF s)
-    (hnone : ∀ n, s.isNecessary n = false) :
-    s.rch.length = 0 ∧ (drainHeap env (fuel + 1)).run.run s = (.ok (), s) := by
-  have h0 := heap_empty_of_none_necessary s hN hH hnone
-  refine ⟨h0, ?_⟩
-  simp only [drainHeap, run_bind, run_rchRemoveMin_empty s h0]
-  rfl
-
-
-/-! ## the invariant holds initially and is kept by every API entry point (normal outcome) -/
-
-/-- the initial state satisfies the invariant -/
+/-- The initial state satisfies the necessity / edge invariant. -/
 theorem necwf_init (maxHeight : Nat) (debug : Bool) : NecWF (State.init maxHeight debug) :=
-  necWF_init maxHeight debug
+  Nec.necwf_init maxHeight debug
 
-theorem VF.toNP {α} {x : M α} (h : ∀ v, VF v x) (v : View) : NP v x := by
-  have := h v
-  nv_mvcgen [this]
-  intro hv; rw [hv]; exact fun h => h
-
-/-- `stabilise` keeps the invariant (when it returns normally; debug assertions on) -/
+/-- If `stabilise` returns normally from a state satisfying the invariant (debug assertions on), the final
+state satisfies it too. -/
 theorem stabilise_ok (env : Env) (fuel : Nat) (s s' : State) (hN : NecWF s) (hd : s.cfg.debug = true)
     (hr : (stabilise env fuel).run.run s = (.ok (), s')) : NecWF s' ∧ s'.cfg.debug = true :=
-  NP.run (fun v => stabilise_v v env fuel) s s' () hN hd hr
+  Nec.stabilise_ok env fuel s s' hN hd hr
 
-/-- `writeVar` (all five write operations on a var) keeps the invariant -/
+/-- A var write (`set`, `update`, `modify`, `replace`, `replace_with`) that returns normally keeps the
+invariant. -/
 theorem writeVar_ok (x : Nat) (f : Val → Val) (isSet : Bool) (s s' : State) (a : Val) (hN : NecWF s)
     (hd : s.cfg.debug = true) (hr : (writeVar x f isSet).run.run s = (.ok a, s')) :
     NecWF s' ∧ s'.cfg.debug = true :=
-  NP.run (fun v => writeVar_v v x f isSet) s s' a hN hd hr
+  Nec.writeVar_ok x f isSet s s' a hN hd hr
 
-/-- `subscribe` keeps the invariant -/
+/-- `subscribe` keeps the invariant. -/
 theorem subscribe_ok (o hid : Nat) (s s' : State) (a : Except ObsError Nat) (hN : NecWF s)
     (hd : s.cfg.debug = true) (hr : (subscribe o hid).run.run s = (.ok a, s')) :
     NecWF s' ∧ s'.cfg.debug = true :=
-  NP.run (VF.toNP fun v => subscribe_v v o hid) s s' a hN hd hr
+  Nec.subscribe_ok o hid s s' a hN hd hr
 
-/-- `unsubscribe` keeps the invariant -/
+/-- `unsubscribe` keeps the invariant. -/
 theorem unsubscribe_ok (o token owner : Nat) (s s' : State) (a : Except ObsError Unit) (hN : NecWF s)
     (hd : s.cfg.debug = true) (hr : (unsubscribe o token owner).run.run s = (.ok a, s')) :
     NecWF s' ∧ s'.cfg.debug = true :=
-  NP.run (VF.toNP fun v => unsubscribe_v v o token owner) s s' a hN hd hr
+  Nec.unsubscribe_ok o token owner s s' a hN hd hr
 
-/-- `disallowFutureUse` keeps the invariant (the observer is only unlinked by the next `stabilise`) -/
+/-- `disallowFutureUse` (dropping an observer) keeps the invariant; the observer is unlinked, and its node
+possibly made unnecessary, only by the next `stabilise`. -/
 theorem disallowFutureUse_ok (o : Nat) (s s' : State) (hN : NecWF s)
     (hd : s.cfg.debug = true) (hr : (disallowFutureUse o).run.run s = (.ok (), s')) :
     NecWF s' ∧ s'.cfg.debug = true :=
-  NP.run (VF.toNP fun v => disallowFutureUse_v v o) s s' () hN hd hr
+  Nec.disallowFutureUse_ok o s s' hN hd hr
 
-/-- creating nodes at top level keeps the invariant -/
+/-- Creating nodes with a top-level instruction keeps the invariant. -/
 theorem elabInstr_ok (lv : Val) (i : Instr) (s s' : State) (a : Option Nat) (hN : NecWF s)
     (hd : s.cfg.debug = true) (hr : (elabInstr [] lv i).run.run s = (.ok a, s')) :
     NecWF s' ∧ s'.cfg.debug = true :=
-  necWF_of_necV (run_of_triple (R := fun _ v v' => NecV v → Ext v v' ∧ NecV v')
-    (fun v => elabInstr_v v [] lv i) s s' a hr (necV_of_necWF hN hd)).2
+  Nec.elabInstr_ok lv i s s' a hN hd hr
 
-/-- `expertAddDependency` keeps the invariant -/
+/-- `expertAddDependency` keeps the invariant. -/
 theorem expertAddDependency_ok (env : Env) (fuel n child : Nat) (cb : Bool) (s s' : State) (a : Nat)
     (hN : NecWF s) (hd : s.cfg.debug = true)
     (hr : (expertAddDependency env fuel n child cb).run.run s = (.ok a, s')) :
     NecWF s' ∧ s'.cfg.debug = true :=
-  NP.run (fun v => expertAddDependency_v v env fuel n child cb) s s' a hN hd hr
+  Nec.expertAddDependency_ok env fuel n child cb s s' a hN hd hr
 
-/-- `expertRemoveDependency` keeps the invariant -/
+/-- `expertRemoveDependency` keeps the invariant. -/
 theorem expertRemoveDependency_ok (fuel n dep : Nat) (s s' : State) (hN : NecWF s)
     (hd : s.cfg.debug = true) (hr : (expertRemoveDependency fuel n dep).run.run s = (.ok (), s')) :
     NecWF s' ∧ s'.cfg.debug = true :=
-  NP.run (fun v => expertRemoveDependency_v v fuel n dep) s s' () hN hd hr
+  Nec.expertRemoveDependency_ok fuel n dep s s' hN hd hr
+
+/-! ## 3: only necessary nodes are computed -/
+
+/-- **(a)** In a state that satisfies the invariant and whose recompute heap is well-formed, the node that
+`remove_min` hands to `recompute` is necessary and valid. -/
+theorem popped_is_necessary (s s' : State) (n : Nat) (hN : NecWF s) (hH : HeapWF s)
+    (hr : rchRemoveMin.run.run s = (.ok (some n), s')) :
+    s.isNecessary n = true ∧ (s.nodeD n).valid = true :=
+  Nec.popped_is_necessary s s' n hN hH hr
+
+/-- … and it still is in the state after the pop (which only clears the node's queue marker). -/
+theorem popped_is_necessary' (s s' : State) (n : Nat) (hN : NecWF s) (hH : HeapWF s)
+    (hr : rchRemoveMin.run.run s = (.ok (some n), s')) :
+    s'.isNecessary n = true ∧ (s'.nodeD n).valid = true :=
+  Nec.popped_is_necessary' s s' n hN hH hr
+
+/-- **(b)** If `recomputeOne`, run from a state satisfying the invariant, hands back a parent `p` for direct
+recomputation (the node `recompute` runs next), then the invariant holds in the resulting state and `p` is
+necessary and valid there. -/
+theorem chain_is_necessary (env : Env) (fuel n p : Nat) (s s' : State) (hN : NecWF s)
+    (hd : s.cfg.debug = true) (hr : (recomputeOne env fuel n).run.run s = (.ok (some p), s')) :
+    NecWF s' ∧ s'.cfg.debug = true ∧ s'.isNecessary p = true ∧ (s'.nodeD p).valid = true :=
+  Nec.chain_is_necessary env fuel n p s s' hN hd hr
+
+/-- **(c)** Every call of `recomputeOne` made by `stabilise` has a necessary, valid argument:
+`stabiliseChecked` (`Proofs/Necessity.lean`) is `stabilise` with the ghost check
+`assertM (s.isNecessary n && (s.nodeD n).valid) "C05:recompute-of-unnecessary-node"` in front of every call of
+`recomputeOne` (in `recomputeChecked`, used by `drainHeapChecked`); from a state satisfying the invariant, with
+a well-formed heap and debug assertions on, the two have the same outcome and final state — the check never
+fires. -/
+theorem stabiliseChecked_eq (env : Env) (fuel : Nat) (s : State) (hN : NecWF s) (hH : HeapWF s)
+    (hd : s.cfg.debug = true) :
+    (stabiliseChecked env fuel).run.run s = (stabilise env fuel).run.run s :=
+  Nec.stabiliseChecked_eq env fuel s hN hH hd
+
+/-- **(d)** If no node is necessary (in particular: no observer is in use and none is new), then in a state
+satisfying the invariant with a well-formed heap the recompute heap is empty and `drainHeap` returns at once,
+leaving the state untouched: nothing is computed. -/
+theorem no_observers_no_work (env : Env) (fuel : Nat) (s : State) (hN : NecWF s) (hH : HeapWF s)
+    (hnone : ∀ n, s.isNecessary n = false) :
+    s.rch.length = 0 ∧ (drainHeap env (fuel + 1)).run.run s = (.ok (), s) :=
+  Nec.no_observers_no_work env fuel s hN hH hnone
 
 /-! ## non-vacuity: a concrete history (a var, a map over it, an observer on the map) -/
 
@@ -345,16 +161,6 @@ def s5 : State := ((writeVar 0 (fun _ => .int 7)).run.run s4).2
 /-- inside the next stabilisation, after the var node has been popped -/
 def s6 : State := (rchRemoveMin.run.run { s5 with status := .stabilising }).2
 
-/-- a run whose outcome is (checked by evaluation to be) `ok a` -/
-theorem run_ok_of {α} [DecidableEq α] (x : M α) (s : State) (a : α)
-    (h : (match (x.run.run s).1 with | .ok b => decide (b = a) | .error _ => false) = true) :
-    x.run.run s = (.ok a, (x.run.run s).2) := by
-  rcases hr : x.run.run s with ⟨r, s'⟩
-  rw [hr] at h
-  cases r with
-  | error e => simp at h
-  | ok b => simp at h; rw [h]
-
 theorem run_s1 : (elabInstr [] .unit (.var (.int 1))).run.run s0 = (.ok (some 0), s1) :=
   run_ok_of _ _ _ (by decide +kernel)
 theorem run_s2 : (elabInstr [] .unit (.map 0 [.abs 0])).run.run s1 = (.ok (some 1), s2) :=
@@ -368,19 +174,6 @@ theorem run_s6 : rchRemoveMin.run.run { s5 with status := .stabilising } = (.ok 
 theorem run_s7 : (recomputeOne exEnv 20 0).run.run s6 = (.ok (some 1), ((recomputeOne exEnv 20 0).run.run s6).2) :=
   run_ok_of _ _ _ (by decide +kernel)
 
-
-theorem good_of_run {α} {x : M α} {s s' : State} {a : α} (hg : Good s)
-    (hn : NecWF s' ∧ s'.cfg.debug = true) (hh : Pres .debug x) (hr : x.run.run s = (.ok a, s')) : Good s' := by
-  have := hh.run s ((HWF_debug_iff s).2 ⟨hg.2.1, hg.2.2⟩)
-  rw [hr] at this
-  exact ⟨hn.1, ((HWF_debug_iff s').1 this).1, hn.2⟩
-
-theorem Good.withStatus {s : State} (h : Good s) (st : Status) : Good { s with status := st } :=
-  ⟨⟨h.1.e1, h.1.e2, h.1.e3, h.1.e4, h.1.kinds⟩, ⟨h.2.1.mem, h.2.1.nodup, h.2.1.length, h.2.1.range⟩, h.2.2⟩
-
-theorem Good.withObservers {s : State} (h : Good s) (obs : Array ObsRec) (no : List Nat) :
-    Good { s with observers := obs, newObservers := no } :=
-  ⟨⟨h.1.e1, h.1.e2, h.1.e3, h.1.e4, h.1.kinds⟩, ⟨h.2.1.mem, h.2.1.nodup, h.2.1.length, h.2.1.range⟩, h.2.2⟩
 
 theorem good_s0 : Good s0 := ⟨necwf_init 4 true, heapWF_init 4 true, rfl⟩
 theorem good_s1 : Good s1 :=
